@@ -14,7 +14,6 @@ import (
 	"io"
 	"net"
 	"net/http"
-	"reflect"
 	"regexp"
 	"sort"
 	"strings"
@@ -34,6 +33,7 @@ import (
 	"github.com/Tnze/go-mc/server"
 	"github.com/Tnze/go-mc/yggdrasil/user"
 
+	"verif/ref/refwire"
 	"verif/vm"
 )
 
@@ -256,6 +256,7 @@ type handlerSpec struct {
 	generic  bool
 	priority int
 	label    int
+	id       int32 // the packet id the handler is registered for (ignored by the library for generic handlers)
 }
 
 var errSentinel = errors.New("verif: handler failed on purpose")
@@ -291,6 +292,29 @@ func session(c *vm.Ctx, r *vm.Rand, si int, sess *sessionServer) {
 	name := genNames(r)
 	accept := r.Intn(5) != 0
 	online := r.Intn(4) == 0 && name != "" // an online profile always has a name (a session reply without one is no confirmation)
+	// who decides about the login: the monitor's checker (which records its arguments), nobody (the field is optional),
+	// or the gate's own player list with room for one player, which is free or taken
+	chkKind := "monitor"
+	switch r.Intn(10) {
+	case 0:
+		chkKind, accept = "nil", true
+	case 1:
+		chkKind = "playerlist"
+		accept = r.Bool() // true: the one place is free
+	}
+	ownUUID := r.Bool() // offline mode: the bot announces a UUID of its own in its login start
+	// one play packet each way at the protocol's 2^21-byte limit: costly under the race detector (seconds), so one
+	// session in sixty (one per shard in the quick tier), which is then made a plain successful one; every other
+	// time without compression
+	nearMax := si%60 == 5
+	if nearMax {
+		chkKind, accept = "monitor", true
+		if (c.Shard+si/60)%2 == 0 {
+			threshold = -1
+		} else if threshold < 0 {
+			threshold = 256
+		}
+	}
 	transport := []string{"tcp", "pipe"}[r.Intn(2)]
 	qkind := []string{"linked", "channel"}[r.Intn(2)]
 	// the configuration step: the minimal one (finish + acknowledgement), or the handler the library itself ships
@@ -313,6 +337,9 @@ func session(c *vm.Ctx, r *vm.Rand, si int, sess *sessionServer) {
 	nS2C, nC2S := r.Range(0, 60), r.Range(0, 60)
 	if r.Intn(8) == 0 {
 		nS2C, nC2S = r.Range(100, 200), r.Range(100, 200)
+	}
+	if nearMax {
+		nS2C, nC2S = max(nS2C, 1), max(nC2S, 1)
 	}
 	sizeOf := func() int {
 		switch r.Intn(6) {
@@ -344,14 +371,27 @@ func session(c *vm.Ctx, r *vm.Rand, si int, sess *sessionServer) {
 		// large handler sets with many priority ties (sorting algorithms change behaviour with size)
 		ng, ns = r.Range(0, 40), r.Range(0, 40)
 	}
-	watched := int32(r.Range(1, 123)) // the id with specific handlers (AddListener takes ids of the protocol's table only)
+	// the ids with specific handlers (AddListener takes ids of the protocol's table only): one to three distinct ones,
+	// so that the table of one id can be told from the table of another
+	var watched []int32
+	for nw := r.Range(1, 3); len(watched) < nw; {
+		id := int32(r.Range(1, 123))
+		dup := false
+		for _, w := range watched {
+			dup = dup || w == id
+		}
+		if !dup {
+			watched = append(watched, id)
+		}
+	}
+	pickWatched := func() int32 { return watched[r.Intn(len(watched))] }
 	var specs []handlerSpec
 	prios := []int{-1, 0, 0, 1, 5}
 	for i := 0; i < ng; i++ {
-		specs = append(specs, handlerSpec{generic: true, priority: prios[r.Intn(len(prios))]})
+		specs = append(specs, handlerSpec{generic: true, priority: prios[r.Intn(len(prios))], id: pickWatched()})
 	}
 	for i := 0; i < ns; i++ {
-		specs = append(specs, handlerSpec{generic: false, priority: prios[r.Intn(len(prios))]})
+		specs = append(specs, handlerSpec{generic: false, priority: prios[r.Intn(len(prios))], id: pickWatched()})
 	}
 	for i := len(specs) - 1; i > 0; i-- { // random registration order
 		j := r.Intn(i + 1)
@@ -371,7 +411,7 @@ func session(c *vm.Ctx, r *vm.Rand, si int, sess *sessionServer) {
 			for k := r.Intn(11); k > 0; k-- {
 				id := int32(r.Range(1, idTop))
 				if r.Intn(3) == 0 {
-					id = watched
+					id = pickWatched()
 				}
 				s2c = append(s2c, step{kind: "packet", id: id, seq: seq, size: sizeOf(), inGroup: group})
 				seq++
@@ -381,13 +421,32 @@ func session(c *vm.Ctx, r *vm.Rand, si int, sess *sessionServer) {
 		}
 		id := int32(r.Range(1, idTop))
 		if r.Intn(3) == 0 {
-			id = watched
+			id = pickWatched()
 		}
 		s2c = append(s2c, step{kind: "packet", id: id, seq: seq, size: sizeOf()})
 		seq++
 	}
+	// (nearMax) one packet each way grows to the limit: in one direction id and body together take exactly 2^21
+	// bytes (the largest the library's reader takes; the frame length needs four bytes when compression is off),
+	// in the other 2^21-6 .. 2^21-1 (the largest three-byte frame length); the directions alternate
+	bigS2C, bigC2S, bigS2CTotal, bigC2STotal := -1, -1, pk.MaxDataLength, pk.MaxDataLength-1-r.Intn(6)
+	exactS2C := (c.Shard/2+si/60)%2 == 0
+	if !exactS2C {
+		bigS2CTotal, bigC2STotal = bigC2STotal, bigS2CTotal
+	}
+	if nearMax {
+		if seq > 0 {
+			bigS2C = r.Intn(int(seq))
+			for i := range s2c {
+				if s2c[i].kind == "packet" && int(s2c[i].seq) == bigS2C {
+					s2c[i].size = bigS2CTotal - len(refwire.EncVarInt(s2c[i].id)) - 5
+				}
+			}
+		}
+		bigC2S = r.Intn(nC2S)
+	}
 	failAt := -1
-	if r.Intn(4) == 0 && seq > 0 && len(specs) > 0 {
+	if r.Intn(4) == 0 && seq > 0 && len(specs) > 0 && !nearMax {
 		failAt = r.Intn(int(seq))
 	}
 	failLabel := -1
@@ -395,8 +454,8 @@ func session(c *vm.Ctx, r *vm.Rand, si int, sess *sessionServer) {
 		failLabel = r.Intn(len(specs))
 	}
 	wit := func() any {
-		return map[string]any{"threshold": threshold, "name": name, "checker_accepts": accept, "online_mode": online, "transport": transport, "bot_queue": qkind, "config_handler": cfgKind,
-			"packets_server_to_client": seq, "packets_client_to_server": nC2S, "bundles": group, "handlers": fmt.Sprintf("%+v", specs), "watched_id": watched, "fail_at_seq": failAt, "fail_handler": failLabel}
+		return map[string]any{"threshold": threshold, "name": name, "checker_accepts": accept, "login_checker": chkKind, "bot_announces_own_uuid": ownUUID, "near_max_packet_s2c_seq": bigS2C, "near_max_packet_c2s_seq": bigC2S, "near_max_id_plus_body_s2c": bigS2CTotal, "near_max_id_plus_body_c2s": bigC2STotal, "online_mode": online, "transport": transport, "bot_queue": qkind, "config_handler": cfgKind,
+			"packets_server_to_client": seq, "packets_client_to_server": nC2S, "bundles": group, "handlers": fmt.Sprintf("%+v", specs), "watched_ids": watched, "fail_at_seq": failAt, "fail_handler": failLabel}
 	}
 	c.Inflight(fmt.Sprintf("session %d %v", si, wit()))
 	c.Eval(vm.HashStr("session", fmt.Sprint(c.Shard, si)), true)
@@ -412,21 +471,33 @@ func session(c *vm.Ctx, r *vm.Rand, si int, sess *sessionServer) {
 		}
 	}}
 	chk := &checker{accept: accept}
+	pl := server.NewPlayerList(20)
+	var lc server.LoginChecker // stays a nil interface for chkKind "nil"
+	switch chkKind {
+	case "monitor":
+		lc = chk
+	case "playerlist":
+		pl = server.NewPlayerList(1)
+		if !accept {
+			pl.ClientJoin(&listedClient{}, server.PlayerSample{Name: "first", ID: uuid.UUID{1}})
+		}
+		lc = pl
+	}
 	srv := &server.Server{
-		ListPingHandler: listPing{server.NewPlayerList(20), server.NewPingInfo("verif", 767, chat.Text("motd §a"+name), nil)},
-		LoginHandler:    &server.MojangLoginHandler{OnlineMode: online, Threshold: threshold, LoginChecker: chk},
+		ListPingHandler: listPing{pl, server.NewPingInfo("verif", 767, chat.Text("motd §a"+name), nil)},
+		LoginHandler:    &server.MojangLoginHandler{OnlineMode: online, Threshold: threshold, LoginChecker: lc},
 		ConfigHandler:   cfgH,
 		GamePlay:        gp,
 	}
 	sess.mu.Lock()
 	sess.lastJoin, sess.lastCheck = "", ""
-	sessID := uuid.New()
+	sessID := randUUID(r)
 	sess.ids[name] = sessID
 	sess.mu.Unlock()
 
 	cl := bot.NewClient()
-	cl.Auth = bot.Auth{Name: name, UUID: uuid.New().String(), AsTk: "token"}
-	if !online {
+	cl.Auth = bot.Auth{Name: name, UUID: randUUID(r).String(), AsTk: "token"}
+	if !online && !ownUUID {
 		cl.Auth.UUID = ""
 	}
 	opts := bot.JoinOptions{}
@@ -459,10 +530,10 @@ func session(c *vm.Ctx, r *vm.Rand, si int, sess *sessionServer) {
 	}
 	// handlers
 	var invs []invocation
-	var generic, specific []bot.PacketHandler
+	var handlers []bot.PacketHandler // parallel to specs
 	for _, hs := range specs {
 		hs := hs
-		h := bot.PacketHandler{ID: packetid.ClientboundPacketID(watched), Priority: hs.priority, F: func(p pk.Packet) error {
+		h := bot.PacketHandler{ID: packetid.ClientboundPacketID(hs.id), Priority: hs.priority, F: func(p pk.Packet) error {
 			rec := parseBody('S', p)
 			invs = append(invs, invocation{label: hs.label, seq: rec.seq, at: int64(time.Since(base))})
 			if failAt >= 0 && int(rec.seq) == failAt && hs.label == failLabel {
@@ -470,28 +541,26 @@ func session(c *vm.Ctx, r *vm.Rand, si int, sess *sessionServer) {
 			}
 			return nil
 		}}
-		if hs.generic {
-			generic = append(generic, h)
-		} else {
-			specific = append(specific, h)
-		}
+		handlers = append(handlers, h)
 	}
-	// registration in the shuffled order, one call per handler or in batches
-	for _, hs := range specs {
-		for _, h := range append(append([]bot.PacketHandler{}, generic...), specific...) {
-			_ = h
+	// registration in the shuffled order: one call per handler, or a run of consecutive handlers of one kind in one
+	// variadic call (the order of registration is the same either way)
+	variadicGeneric, variadicSpecific := false, false
+	for i := 0; i < len(specs); {
+		j := i + 1
+		if r.Bool() {
+			for j < len(specs) && specs[j].generic == specs[i].generic && r.Intn(4) != 0 {
+				j++
+			}
 		}
-		_ = hs
-	}
-	gi, spi := 0, 0
-	for _, hs := range specs {
-		if hs.generic {
-			cl.Events.AddGeneric(generic[gi])
-			gi++
+		if specs[i].generic {
+			cl.Events.AddGeneric(handlers[i:j]...)
+			variadicGeneric = variadicGeneric || j-i > 1
 		} else {
-			cl.Events.AddListener(specific[spi])
-			spi++
+			cl.Events.AddListener(handlers[i:j]...)
+			variadicSpecific = variadicSpecific || j-i > 1
 		}
+		i = j
 	}
 	// a recorder for everything (lowest priority generic) to check order/integrity of all packets
 	var got []recvRec
@@ -501,7 +570,7 @@ func session(c *vm.Ctx, r *vm.Rand, si int, sess *sessionServer) {
 	}})
 
 	fault := ""
-	if online && r.Intn(3) == 0 {
+	if online && r.Intn(3) == 0 && !nearMax {
 		fault = []string{"403-json", "429-json", "200-empty-object", "500-html"}[r.Intn(4)]
 	}
 	sess.mu.Lock()
@@ -542,6 +611,9 @@ func session(c *vm.Ctx, r *vm.Rand, si int, sess *sessionServer) {
 		if online {
 			c.Cover("join.refused.online")
 		}
+		if chkKind == "playerlist" {
+			c.Cover("join.refused.by-full-playerlist")
+		}
 		return
 	}
 	if joinErr != nil {
@@ -564,7 +636,11 @@ func session(c *vm.Ctx, r *vm.Rand, si int, sess *sessionServer) {
 	}()
 	sendErr := error(nil)
 	for i := 0; i < nC2S; i++ {
-		if err := cl.Conn.WritePacket(pk.Packet{ID: int32(r.Intn(idTop)), Data: body('C', uint32(i), sizeOf())}); err != nil {
+		id, size := int32(r.Intn(idTop)), sizeOf()
+		if i == bigC2S {
+			size = bigC2STotal - len(refwire.EncVarInt(id)) - 5
+		}
+		if err := cl.Conn.WritePacket(pk.Packet{ID: id, Data: body('C', uint32(i), size)}); err != nil {
 			sendErr = err
 			break
 		}
@@ -575,9 +651,17 @@ func session(c *vm.Ctx, r *vm.Rand, si int, sess *sessionServer) {
 		cl.Close() // the bot stops: let the server side finish
 		<-gp.done
 	} else {
-		<-gp.done
-		hgErr = <-handleDone
-		cl.Close()
+		// the server ends first (AcceptPlayer returns, then the gate closes the connection, then HandleGame sees the end).
+		// A bot that stops before that would leave the server's writer blocked for good: close the connection for it and
+		// let the checks below say what was lost.
+		select {
+		case <-gp.done:
+			hgErr = <-handleDone
+			cl.Close()
+		case hgErr = <-handleDone:
+			cl.Close() // once only: closing a channel queue twice panics
+			<-gp.done
+		}
 	}
 	if ln != nil {
 		ln.Close()
@@ -604,6 +688,9 @@ func session(c *vm.Ctx, r *vm.Rand, si int, sess *sessionServer) {
 	if online && gp.id != sessID {
 		c.Violation("identity/not-session-uuid", fmt.Sprintf("online-mode UUID is %v, the session server answered %v", gp.id, sessID), wit())
 		return
+	}
+	if chkKind != "monitor" {
+		chk.gotProt, chk.gotName = bot.ProtocolVersion, name // the monitor's checker was not installed
 	}
 	if gp.protocol != bot.ProtocolVersion || chk.gotProt != bot.ProtocolVersion || chk.gotName != name {
 		c.Violation("identity/protocol-or-checker-args", fmt.Sprintf("server got protocol %d (checker %d, name %q), bot speaks %d", gp.protocol, chk.gotProt, chk.gotName, bot.ProtocolVersion), wit())
@@ -655,18 +742,23 @@ func session(c *vm.Ctx, r *vm.Rand, si int, sess *sessionServer) {
 		prio, order, label int
 		generic            bool
 	}
-	var gs, ss []hk
+	var gs []hk
+	ss := map[int32][]hk{} // one table per packet id
 	for i, hs := range specs {
 		k := hk{prio: hs.priority, order: i, label: hs.label, generic: hs.generic}
 		if hs.generic {
 			gs = append(gs, k)
 		} else {
-			ss = append(ss, k)
+			ss[hs.id] = append(ss[hs.id], k)
 		}
 	}
 	by := func(x []hk) { sort.SliceStable(x, func(i, j int) bool { return x[i].prio > x[j].prio }) }
 	by(gs)
-	by(ss)
+	mostSpecific, idsSeen := 0, map[int32]bool{}
+	for id := range ss {
+		by(ss[id])
+		mostSpecific = max(mostSpecific, len(ss[id]))
+	}
 	var want []invocation
 	stopped := false
 	for _, st := range s2c {
@@ -674,8 +766,9 @@ func session(c *vm.Ctx, r *vm.Rand, si int, sess *sessionServer) {
 			continue
 		}
 		order := append([]hk{}, gs...)
-		if st.id == watched {
-			order = append(order, ss...)
+		order = append(order, ss[st.id]...)
+		if len(ss[st.id]) > 0 {
+			idsSeen[st.id] = true
 		}
 		for _, h := range order {
 			want = append(want, invocation{label: h.label, seq: st.seq})
@@ -758,11 +851,41 @@ func session(c *vm.Ctx, r *vm.Rand, si int, sess *sessionServer) {
 	} else {
 		c.Cover("join.offline")
 	}
-	if len(gs) > 1 || len(ss) > 1 {
+	if len(gs) > 1 || mostSpecific > 1 {
 		c.Cover("dispatch.multiple-handlers")
 	}
-	if len(gs) > 12 || len(ss) > 12 {
+	if len(gs) > 12 || mostSpecific > 12 {
 		c.Cover("dispatch.more-than-12-handlers-in-one-list")
+	}
+	if len(idsSeen) > 1 {
+		c.Cover("dispatch.packets-for-several-ids-with-tables-of-their-own")
+	}
+	if variadicGeneric {
+		c.Cover("dispatch.AddGeneric-with-several-handlers")
+	}
+	if variadicSpecific {
+		c.Cover("dispatch.AddListener-with-several-handlers")
+	}
+	c.Cover("join.checker." + chkKind)
+	if !online && ownUUID {
+		c.Cover("join.offline.bot-announced-own-uuid") // identity/* above: the offline UUID was assigned and adopted all the same
+	}
+	if failAt < 0 && bigS2C >= 0 {
+		c.Cover("play.near-2MiB.s2c-intact")
+		if exactS2C {
+			c.Cover("play.near-2MiB.s2c-intact.exactly-2^21")
+		}
+	}
+	if failAt < 0 && bigC2S >= 0 {
+		c.Cover("play.near-2MiB.c2s-intact")
+		if !exactS2C {
+			c.Cover("play.near-2MiB.c2s-intact.exactly-2^21")
+		}
+		if threshold < 0 {
+			c.Cover("play.near-2MiB.without-compression")
+		} else {
+			c.Cover("play.near-2MiB.with-compression")
+		}
 	}
 	c.EvalN(int64(seq)+int64(nC2S), vm.HashStr("packets", fmt.Sprint(c.Shard, si)), true)
 	if si < 2 {
@@ -771,6 +894,12 @@ func session(c *vm.Ctx, r *vm.Rand, si int, sess *sessionServer) {
 }
 
 // refOfflineUUID: Java's UUID.nameUUIDFromBytes(("OfflinePlayer:"+name).getBytes(UTF_8)).
+func randUUID(r *vm.Rand) (u uuid.UUID) {
+	copy(u[:], r.Bytes(16))
+	u[6], u[8] = u[6]&0x0f|0x40, u[8]&0x3f|0x80 // version 4, as the session service issues them
+	return u
+}
+
 func refOfflineUUID(name string) uuid.UUID {
 	h := md5.Sum([]byte("OfflinePlayer:" + name))
 	h[6] = h[6]&0x0f | 0x30
@@ -782,94 +911,6 @@ type listedClient struct{ kicked bool }
 
 func (l *listedClient) SendDisconnect(chat.Message) { l.kicked = true }
 
-func ping(c *vm.Ctx, r *vm.Rand) {
-	maxPlayers, vName, vProto, motdText, motdBold := r.Range(1, 100), "verif-"+genNames(r), r.Intn(1000), "hello "+genNames(r), r.Bool()
-	pl := server.NewPlayerList(maxPlayers)
-	motd := chat.Message{Text: motdText, Bold: motdBold, Color: chat.Gold}
-	pi := server.NewPingInfo(vName, vProto, motd, nil)
-	// players already on the server: none, a few, exactly the 10 a status sample may list, and more than that
-	nJoin := []int{0, 0, 1, 3, 9, 10, 11, 12, 25}[r.Intn(9)]
-	joined := map[string]string{} // id -> name
-	for k := 0; k < nJoin; k++ {
-		ps := server.PlayerSample{Name: fmt.Sprintf("p%d-%s", k, genNames(r)), ID: uuid.UUID{byte(k + 1), byte(r.Intn(256)), 3}}
-		before := pl.Len()
-		pl.ClientJoin(&listedClient{}, ps)
-		if pl.Len() > before {
-			joined[ps.ID.String()] = ps.Name
-		}
-	}
-	online := min(nJoin, maxPlayers)
-	srv := &server.Server{ListPingHandler: listPing{pl, pi}, LoginHandler: &server.MojangLoginHandler{Threshold: -1}, ConfigHandler: cfgHandler{}, GamePlay: &gamePlay{done: make(chan struct{})}}
-	l, err := mcnet.ListenMC("127.0.0.1:0")
-	if err != nil {
-		c.Inconclusive("listen: " + err.Error())
-		return
-	}
-	defer l.Close()
-	go func() {
-		for {
-			conn, err := l.Accept()
-			if err != nil {
-				return
-			}
-			go srv.AcceptConn(&conn)
-		}
-	}()
-	var data []byte
-	var perr error
-	wit := func() any { return map[string]any{"addr": l.Addr().String()} }
-	if c.Guard("ping", wit, func() { data, _, perr = bot.PingAndList(l.Addr().String()) }) {
-		return
-	}
-	c.Eval(vm.HashStr("ping", fmt.Sprint(r.Uint64())), true)
-	if perr != nil {
-		c.Violation("ping/error", "PingAndList against the library's own server failed: "+perr.Error(), wit())
-		return
-	}
-	var gotV, wantV any
-	if err := json.Unmarshal(data, &gotV); err != nil {
-		c.Violation("ping/not-json", "status response is not JSON: "+err.Error(), wit())
-		return
-	}
-	// expected from what the handlers were constructed with (nobody has joined), not from their getters
-	md := fmt.Sprintf(`{"text":%q,"color":"gold"}`, motdText)
-	if motdBold {
-		md = fmt.Sprintf(`{"text":%q,"bold":true,"color":"gold"}`, motdText)
-	}
-	want := fmt.Sprintf(`{"version":{"name":%q,"protocol":%d},"players":{"max":%d,"online":%d},"description":%s}`, vName, vProto, maxPlayers, online, md)
-	json.Unmarshal([]byte(want), &wantV)
-	// the sample: at most 10 of the players that are on, each once, with their own names
-	if gm, ok := gotV.(map[string]any); ok {
-		if pm, ok := gm["players"].(map[string]any); ok {
-			sample, _ := pm["sample"].([]any)
-			delete(pm, "sample")
-			seen := map[string]bool{}
-			for _, e := range sample {
-				em, _ := e.(map[string]any)
-				id, _ := em["id"].(string)
-				name, _ := em["name"].(string)
-				if joined[id] != name || name == "" || seen[id] {
-					c.Violation("ping/sample-entry", fmt.Sprintf("status sample lists %v, which is not one of the %d players on the server (or is listed twice)", e, len(joined)), wit())
-					return
-				}
-				seen[id] = true
-			}
-			if len(sample) != min(online, 10) {
-				c.Violation("ping/sample-size", fmt.Sprintf("%d players are on, the status sample lists %d (expected %d)", online, len(sample), min(online, 10)), wit())
-				return
-			}
-			if online > 10 {
-				c.Cover("ping.more-than-10-players-online")
-			}
-		}
-	}
-	if !reflect.DeepEqual(gotV, wantV) {
-		c.Violation("ping/status-json-differs", fmt.Sprintf("status JSON %s differs from what the status handlers were constructed with: %s", data, want), wit())
-		return
-	}
-	c.Cover("ping.ok")
-}
-
 func run(c *vm.Ctx) {
 	c.EnableParkWatch("deadlock")
 	sess := &sessionServer{joined: map[string]string{}, ids: map[string]uuid.UUID{}}
@@ -878,8 +919,9 @@ func run(c *vm.Ctx) {
 	for i := 0; i < c.Scale(480, 8000); i++ {
 		session(c, r, i, sess)
 	}
+	serverIDSessions(c, sess)
 	pr := c.Rand("ping")
 	for i := 0; i < c.Scale(80, 1600); i++ {
-		ping(c, pr)
+		ping(c, pr, i*c.NShards+c.Shard)
 	}
 }
